@@ -1,4 +1,4 @@
-// GENERATED on every run by vlib/extract.py from /tmp/seedcheck-20768 -- do not edit
+// GENERATED on every run by vlib/extract.py from /tmp/seedcheck-6597 -- do not edit
 #![allow(unused_imports, unused_variables, unused_mut, dead_code, unused_parens, unused_braces, non_snake_case)]
 use vstd::prelude::*;
 use core::cmp::Ordering;
@@ -658,6 +658,12 @@ pub proof fn lemma_sorted_partition(v: Seq<(QualifierKey, SmallString)>, t: Seq<
 }
 
 
+
+/// documented panic: indexing a qualifier that is absent
+#[verifier::external_body]
+pub fn x_panic_absent() -> !
+    requires false
+{ panic!() }
 
 impl<S: AsRef<str>> MixedQualifierKey<S> {
     pub open spec fn text(&self) -> Seq<char> {
@@ -1464,6 +1470,26 @@ where Q: TryFrom<&'a str> + KnownQualifierKey,
                     s@ == self.qualifiers@[pos_of(self.qualifiers@, lower_ascii_seq(Q::KEY@))].1@ && #[trigger] Q::try_from_rel(s, x)
                     && match x { Ok(q) => r == Ok::<Option<Q>, Q::Error>(Some(q)), Err(e) => r == Err::<Option<Q>, Q::Error>(e) },
 { unimplemented!() }
+// ---- unit U-qmap.try_insert_typed  <= purl/src/qualifiers.rs:247 ----
+#[verifier::external_body]
+pub fn try_insert_typed<Q>( &mut self, value: Q, ) -> (r: Result<(), <SmallString as TryFrom<Q>>::Error>)
+where Q: KnownQualifierKey, SmallString: TryFrom<Q>,
+        requires old(self).wf(), valid_key(Q::KEY@)
+        ensures final(self).wf(),
+            exists|x: Result<SmallString, <SmallString as TryFrom<Q>>::Error>| #[trigger] <SmallString as TryFrom<Q>>::try_from_rel(value, x) && match x {
+                Err(e) => r == Err::<(), <SmallString as TryFrom<Q>>::Error>(e) && final(self).qualifiers@ == old(self).qualifiers@,
+                Ok(val) => r is Ok && ({
+                    let k = lower_ascii_seq(Q::KEY@);
+                    let p = pos_of(old(self).qualifiers@, k);
+                    if has_key(old(self).qualifiers@, k) {
+                        final(self).qualifiers@ == old(self).qualifiers@.update(p, (old(self).qualifiers@[p].0, val))
+                    } else {
+                        final(self).qualifiers@.len() == old(self).qualifiers@.len() + 1 && final(self).qualifiers@[p].0.0@ == k
+                        && final(self).qualifiers@ == old(self).qualifiers@.insert(p, (final(self).qualifiers@[p].0, val))
+                    }
+                }),
+            }
+{ unimplemented!() }
 }
 impl<T> GenericPurlBuilder<T> {
 // ---- unit U-set.new  <= purl/src/builder.rs:34 ----
@@ -1611,6 +1637,23 @@ where Q: KnownQualifierKey, SmallString: From<Q>,
         }
         this
     }
+// ---- unit U-set.try_with_typed_qualifier  <= purl/src/builder.rs:131 ----
+pub fn try_with_typed_qualifier<Q>(self, v: Option<Q>, ) -> (r: Result<Self, <SmallString as TryFrom<Q>>::Error>)
+where Q: KnownQualifierKey, SmallString: TryFrom<Q>,
+        requires self.parts.qualifiers.wf(), v is Some ==> valid_key(Q::KEY@)
+        ensures r is Ok ==> r->Ok_0.package_type == self.package_type && r->Ok_0.parts.namespace == self.parts.namespace && r->Ok_0.parts.name == self.parts.name && r->Ok_0.parts.version == self.parts.version && r->Ok_0.parts.subpath == self.parts.subpath && r->Ok_0.parts.qualifiers.wf()
+{
+    let mut this = self;
+        match v {
+            Some(v) => {
+                this.parts.qualifiers.try_insert_typed(v)?;
+            },
+            None => {
+                this.parts.qualifiers.remove_typed::<Q>();
+            },
+        }
+        Ok(this)
+    }
 // ---- unit U-build.build  <= purl/src/builder.rs:190 ----
 pub fn build(self) -> (r: Result<GenericPurl<T>, T::Error>)
 where T: PurlShape,
@@ -1634,7 +1677,6 @@ this.package_type.finish(&mut this.parts)?;
 if this.parts.name.is_empty() {
             return Err(T::Error::from(ParseError::MissingRequiredField(PurlField::Name)));
         }
-        x_retain_nonempty(&mut this.parts.qualifiers);
         
         proof {
             let q2 = this.parts.qualifiers.qualifiers@;
@@ -1646,6 +1688,7 @@ if this.parts.name.is_empty() {
 if let Some(checksum) = (match this.parts.qualifiers.try_get_typed::<Checksum>() { Ok(v_) => v_, Err(e_) => return Err(From::from(e_)) }) {
             this.parts.qualifiers.insert(Checksum::KEY, (match <SmallString as TryFrom<Checksum>>::try_from(checksum) { Ok(v_) => v_, Err(e_) => return Err(From::from(e_)) }))?;
         }
+        x_retain_nonempty(&mut this.parts.qualifiers);
         let GenericPurlBuilder { package_type, parts } = this;
         Ok(GenericPurl { package_type, parts })
     }
